@@ -19,6 +19,10 @@ def base_atoms(kind: str, jitter: float = 0.0) -> tuple[Atoms, dict]:
         pos = np.array([[1.0, 1.2, 0.9], [3.1, 2.2, 4.0], [4.4, 4.9, 2.1]])
         atoms = Atoms("Ar3", positions=pos, cell=[CELL] * 3, pbc=True)
         info = {"labels": [0, 1, 2], "exchange": Atoms("Ar", positions=[[0, 0, 0]])}
+    elif kind == "Cu3":
+        pos = np.array([[1.0, 1.2, 0.9], [3.1, 2.2, 2.0], [2.4, 3.9, 2.1]])
+        atoms = Atoms("Cu3", positions=pos, cell=[CELL] * 3, pbc=True)
+        info = {"labels": [0, 1, 2], "exchange": Atoms("Cu", positions=[[0, 0, 0]])}
     elif kind == "A2":
         pos = np.array([[1.0, 1.2, 0.9], [3.1, 2.2, 4.0]])
         atoms = Atoms("Ar2", positions=pos, cell=[CELL] * 3, pbc=True)
@@ -85,9 +89,39 @@ CALCS = {
 }
 
 
+def counting(factory):
+    """Wrap a calculator factory so that instances count ``calculate`` calls in ``.evaluations``."""
+
+    def make():
+        c = factory()
+        if hasattr(c, "evaluations"):
+            return c
+        base = type(c)
+
+        class Counting(base):  # type: ignore[misc, valid-type]
+            def calculate(self, *a, **k):
+                self.evaluations = getattr(self, "evaluations", 0) + 1
+                return base.calculate(self, *a, **k)
+
+        Counting.__name__ = base.__name__
+        c.__class__ = Counting
+        c.evaluations = 0
+        return c
+
+    return make
+
+
 def calc_factory(name):
+    if name == "bare":
+        return lambda: calcs.Bare(k=0.05)
+    if name in ("lj", "emt"):
+        return counting(_ase_factory(name))
     if name in CALCS:
         return CALCS[name]
+    raise ValueError(name)
+
+
+def _ase_factory(name):
     if name == "lj":
         from ase.calculators.lj import LennardJones
 
@@ -197,6 +231,11 @@ def build(spec: dict) -> System:
     T = spec.get("T", 300.0)
     ens = spec["ens"]
     kw = dict(max_cycles=spec.get("max_cycles", 1), seed=spec.get("seed", 1))
+    if spec.get("log"):
+        import io
+
+        kw["logfile"] = io.StringIO()
+        kw["logging_interval"] = 1
     with warnings.catch_warnings():
         warnings.simplefilter("ignore")
         if ens == "Canonical":
